@@ -141,7 +141,13 @@ func (i *importedString) StrictEquals(other Value) bool {
 			return true
 		}
 	case *importedString:
-		return i.s == otherStr.s
+		if i.s == otherStr.s {
+			return true
+		}
+		// Different bytes are still the same string if they differ only in invalid UTF-8 (which scans to U+FFFD)
+		i.ensureScanned()
+		otherStr.ensureScanned()
+		return i.u != nil && otherStr.u != nil && i.u.equals(otherStr.u)
 	}
 	return false
 }
